@@ -14,8 +14,13 @@ STRRED = ['mean', 'sum', 'min', 'max', 'std', 'var', 'median']   # reduce_dim st
 CONV = [['valid', [.5, .5]], ['same', [.25, .5, .25]], ['full', [1., 1.]]]
 DICTFN = [('d', 'diff'), ('d', 'first')]   # documented dict form {'func1d': f}
 # dict form WITH keyword options (each dimension its own): {'func1d': scale_shift, 'a': .., 'b': ..}
-DICTKW = [('d', 'ss_2_1'), ('d', 'ss_m1_3')]
-KWOPTS = {'ss_2_1': dict(a=2., b=1.), 'ss_m1_3': dict(a=-1., b=3.)}
+DICTKW = [('d', 'ss_2_1'), ('d', 'ss_m1_3'), ('d', 'head_1'), ('d', 'head_2')]
+KWOPTS = {'ss_2_1': dict(a=2., b=1.), 'ss_m1_3': dict(a=-1., b=3.), 'head_1': dict(n=1), 'head_2': dict(n=2)}
+
+
+def head(x, n):
+    """the first n elements (the option is required and decides the length of the result)"""
+    return x[:n]
 
 
 def scale_shift(x, a, b):
@@ -26,7 +31,7 @@ COMMUTING = ('sum', 'min', 'max')
 
 def fn_to_py(fn):
     if fn[0] == 'd' and fn[1] in KWOPTS:
-        return dict(func1d=scale_shift, **KWOPTS[fn[1]])
+        return dict(func1d=head if fn[1].startswith('head') else scale_shift, **KWOPTS[fn[1]])
     if fn[0] == 'd':
         return {'func1d': rops.FUNCS[fn[1]]}
     if fn[1] == 'scalar_mean':
@@ -112,7 +117,8 @@ class Prop(core.Prop):
                 yield {'file': group['file'], 'funcs': fs[::-1]}
         if len(dims) == 2:
             # two dimensions in the dict form, each with its own keyword options
-            for fa, fb in ((DICTKW[0], DICTKW[1]), (DICTKW[1], DICTKW[0]), (DICTKW[0], ('d', 'diff'))):
+            for fa, fb in ((DICTKW[0], DICTKW[1]), (DICTKW[1], DICTKW[0]), (DICTKW[0], ('d', 'diff')),
+                           (DICTKW[2], DICTKW[3]), (DICTKW[3], DICTKW[0])):
                 fs = [[dims[0], list(fa)], [dims[1], list(fb)]]
                 yield {'file': group['file'], 'funcs': fs}
                 yield {'file': group['file'], 'funcs': fs[::-1]}
